@@ -69,7 +69,16 @@ enum Any {
 fn offer(target: Target, s: &[u8], incremental: bool, rec: &mut Rec) {
     let mut flow = match target {
         Target::Await100 => Any::A(await_flow()),
-        Target::Response => Any::R(super::c05::recv_flow("GET")),
+        Target::Response => {
+            let mut f = super::c05::recv_flow("GET");
+            // every other input (by length and first byte) meets a caller that opted in to truncated redirect heads:
+            // whatever that accepts, every call returns normally and within what was offered
+            if (s.len() + s.first().copied().unwrap_or(0) as usize) % 2 == 1 {
+                f.allow_partial_redirect(true);
+                rec.cov("response/opt-in-on");
+            }
+            Any::R(f)
+        }
         Target::Chunked => Any::B(body_flow(b"HTTP/1.1 200 OK\r\nTransfer-Encoding: chunked\r\n\r\n")),
         Target::Length5 => Any::B(body_flow(b"HTTP/1.1 200 OK\r\nContent-Length: 5\r\n\r\n")),
         Target::Close => Any::B(body_flow(b"HTTP/1.1 200 OK\r\n\r\n")),
@@ -694,6 +703,8 @@ fn mutation_case(rng: &mut Rng, rec: &mut Rec) {
     }
     let huge = stream.len() > 50_000;
     let mut sched = Sched::random(rng, stream.len() < 3000);
+    // one mutated exchange in four is met by a caller that opted in to truncated redirect heads and left it on
+    sched.partial_on = rng.chance(1, 4);
     if lane {
         sched.arrive = *rng.pick(&[Prof::Big, Prof::Fixed(16), Prof::Mixed]);
         sched.read_out = *rng.pick(&[Prof::Big, Prof::Fixed(8)]);
